@@ -105,12 +105,28 @@ func c13Run(c *core.Ctx, keyName, method string, kind int) {
 	if c.Rng.Intn(2) == 0 {
 		k.entityID = "urn:example:sp:c13"
 	}
+	// optional request content: whatever the configuration adds to the message has to be under the signature as emitted
+	switch c.Rng.Intn(4) {
+	case 1:
+		k.authnCtx = &saml.RequestedAuthnContext{Comparison: "exact", AuthnContextClassRef: "urn:oasis:names:tc:SAML:2.0:ac:classes:PasswordProtectedTransport"}
+	case 2:
+		k.authnCtx = &saml.RequestedAuthnContext{AuthnContextClassRef: "urn:oasis:names:tc:SAML:2.0:ac:classes:X509"} // Comparison left unset
+	case 3:
+		k.authnCtx = &saml.RequestedAuthnContext{Comparison: "minimum", AuthnContextClassRef: "urn:oasis:names:tc:SAML:2.0:ac:classes:Password"}
+	}
+	switch c.Rng.Intn(3) {
+	case 1:
+		k.forceAuthn = boolPtr(true)
+	case 2:
+		k.forceAuthn = boolPtr(false)
+	}
+	k.format = []saml.NameIDFormat{"", saml.EmailAddressNameIDFormat, saml.PersistentNameIDFormat, saml.UnspecifiedNameIDFormat}[c.Rng.Intn(4)]
 	sp, _ := c12SP(k)
 	sp.Key, sp.Certificate = kp.Key, kp.Cert
 	sp.SignatureMethod = method
 	sp.IDPMetadata.IDPSSODescriptors[0].ArtifactResolutionServices = []saml.Endpoint{{Binding: saml.SOAPBinding, Location: so.IDPArt}}
 	kinds := []string{"authn-redirect", "authn-post", "logoutreq-redirect", "logoutreq-post", "logoutresp-redirect", "logoutresp-post", "artifact-resolve"}
-	desc := fmt.Sprintf("key=%s method=%s kind=%s relay=%q endpoint=%q entityID=%q", keyName, shortAlg(method), kinds[kind], truncate(relay, 50), ep, k.entityID)
+	desc := fmt.Sprintf("key=%s method=%s kind=%s relay=%q endpoint=%q entityID=%q authnCtx=%v forceAuthn=%v format=%q", keyName, shortAlg(method), kinds[kind], truncate(relay, 50), ep, k.entityID, c13Ctx(k.authnCtx), k.forceAuthn != nil, k.format)
 	c.Journal("C13 " + desc)
 	matching := (methodIsRSA(method) && kp.IsRSA() || strings.Contains(method, "#ecdsa-") && !kp.IsRSA())
 	known := false
@@ -323,4 +339,14 @@ func verifyDetached(cert *x509.Certificate, method string, octets, sig []byte) b
 		return ecdsa.VerifyASN1(pub, sum, sig)
 	}
 	return false
+}
+
+func c13Ctx(r *saml.RequestedAuthnContext) string {
+	if r == nil {
+		return "none"
+	}
+	if r.Comparison == "" {
+		return "comparison-unset"
+	}
+	return r.Comparison
 }
